@@ -216,13 +216,15 @@ def gap_extended(chunk, j):
     return ops.vmin(c.e[4], pc), ops.vmax(c.e[3], pc)
 
 
-def t_match_chunk(n, minutes=3, hook_cancels=True):
+def t_match_chunk(n, minutes=3, hook_cancels=True, reds=None):
     def t(h):
         W = match_world(h, n, allow_new=False, hook_cancels=hook_cancels)
         rows = []
         for j in range(minutes):
             v = h.vec(f'm{j}_', 6)
             valid_candle(h, v)
+            if reds is not None and j < len(reds):
+                h.assume(ops.compare('>', v.e[1], v.e[2]) if reds[j] else ops.compare('<=', v.e[1], v.e[2]))
             rows.append(v)
         chunk = Arr(minutes, (lambda k, rows=rows: ops.pick(rows, k)), np=True, cols=6)
         h.cover('chunk.pre')
@@ -298,9 +300,11 @@ def tasks(tier):
     mins = 2 if tier == 'quick' else 3
     ts.append(Task('match.chunk.n1', t_match_chunk(1, 3), extra=dict(x, bounded='chunk of 3 minutes, 1 resting order'),
                    overrides=dict(ov), max_paths=100000))
-    ts.append(Task('match.chunk.n2', t_match_chunk(2, mins, hook_cancels=False),
-                   extra=dict(x, bounded=f'chunk of {mins} minutes, 2 resting orders, fills without hook effects'),
-                   overrides=dict(ov), max_paths=200000))
+    for r0 in (False, True):
+        for r1 in (False, True):
+            ts.append(Task(f'match.chunk.n2.{"f" if r0 else "r"}{"f" if r1 else "r"}', t_match_chunk(2, mins, hook_cancels=False, reds=(r0, r1)),
+                           extra=dict(x, bounded=f'chunk of {mins} minutes, 2 resting orders, fills without hook effects'),
+                           overrides=dict(ov), max_paths=200000))
     for s_ in ('_step_simulator', '_skip_simulator'):
         ts.append(Task(f'flush.{s_}', t_flush(s_), extra=dict(x), overrides=dict(ov), invariants={}))
     return ts
